@@ -12,7 +12,14 @@ malloc/calloc/free/reset/user writes.
 
 Documented preconditions: the pool size is a `size_t` value (`size < 2^64`; needed so that a
 `calloc` whose product overflows `size_t` — which the library answers with NULL — also does not
-fit in the spec's sense), and user writes stay inside the region (`OpOk`). -/
+fit in the spec's sense), and user writes stay inside the region (`OpOk`).
+
+Two things the model cannot falsify, by construction: (1) addresses are *relative to the region
+start* (`low_ptr = data_buf + offset`, computed once in `cc_static_pool_new`), so a wrong use of
+`offset` there is visible to the harness (canaries before the region, `WALK=region-start`) but not
+to these theorems; (2) a zero-length block has the address of the block that follows it, so
+`malloc 0; malloc 4; free(first pointer)` rolls back the 4-byte block — pointer identity is all the
+C code (and the model) can compare. -/
 namespace CC.Properties.C12
 open CC CC.Spec
 open CC.Spec.SPool (Op)
@@ -206,7 +213,9 @@ theorem new_history_blocks_safe (size : Nat) (bytes : Buf Nat) (hb : bytes.lengt
     let s := ((StaticPool.new size bytes).run ops₁ m).2.1
     (∀ b ∈ s.blocks, b.1 + b.2 ≤ size) ∧ s.blocks.Pairwise (fun a b => disjoint a b) ∧
     (∀ n p, (s.malloc n).1 = some p → p + n ≤ size ∧ ∀ b ∈ s.blocks, disjoint (p, n) b) ∧
-    (∀ c k p m', (s.calloc c k m').1 = some p → p + c * k ≤ size ∧ ∀ b ∈ s.blocks, disjoint (p, c * k) b) := by
+    (∀ c k p m', (s.calloc c k m').1 = some p → p + c * k ≤ size ∧ (∀ b ∈ s.blocks, disjoint (p, c * k) b) ∧
+      (∀ i, i < c * k → (s.calloc c k m').2.1.core.bytes.getD (p + i) 0 = 0) ∧
+      (∀ j, j < size → ¬ (p ≤ j ∧ j < p + c * k) → (s.calloc c k m').2.1.core.bytes.getD j 0 = s.core.bytes.getD j 0)) := by
   intro s
   have hi := StaticPool.new_inv size bytes hb
   have hh := history_refines ops₁ (StaticPool.new size bytes) m hi hsz hops
@@ -229,7 +238,9 @@ theorem new_history_blocks_safe (size : Nat) (bytes : Buf Nat) (hb : bytes.lengt
     rw [hr.1] at hp
     have := calloc_block s.abs c k p hwf hp
     rw [hsize] at this
-    exact ⟨this.1, this.2.1⟩
+    have hb : (s.calloc c k m').2.1.core.bytes = (s.abs.calloc c k).2.bytes := by rw [← hr.2]; rfl
+    exact ⟨this.1, this.2.1, fun i hi => by rw [hb]; exact this.2.2.2.1 i hi,
+      fun j hj hout => by rw [hb]; exact this.2.2.2.2 j hj hout⟩
 
 /-- a request that does not fit returns NULL and changes nothing — for every request size -/
 theorem nofit_null_unchanged (s : SPool) (n : Nat) (h : s.free < n) : s.malloc n = (none, s) := by
